@@ -977,3 +977,135 @@ theorem zc_init {α} (n : Nat) : ZC (α := α) n [] [] (zipInit n) :=
    by intro hc; simp at hc, by intro hc; simp at hc⟩
 
 end Comb
+
+namespace Comb
+
+/-! ## nested amb = flattened amb -/
+
+theorem range'_eq_filter_gt (n k : Nat) : List.range' (k + 1) (n - (k + 1)) = (List.range n).filter (fun j => k < j) := by
+  induction n with
+  | zero => simp
+  | succ n ih =>
+    rw [List.range_succ, List.filter_append, ← ih]
+    by_cases hk : k < n
+    · have : n + 1 - (k + 1) = (n - (k + 1)) + 1 := by omega
+      rw [this, List.range'_concat]
+      simp [hk]; omega
+    · have h1 : n + 1 - (k + 1) = 0 := by omega
+      have h2 : n - (k + 1) = 0 := by omega
+      simp [h1, h2, hk]
+
+/-- climbing through levels that have not chosen yet: each of them chooses "R" and closes its own source -/
+theorem ambUp_none {β} (f : Nat) : ∀ (j : Nat) (ch : Nat → Option Bool), (∀ i, j ≤ i → i < j + f → ch i = none) →
+    ambUp (β := β) f j ch
+      = (fun i => if j ≤ i ∧ i < j + f then some false else ch i, (List.range' j f).map Act.unsub, true) := by
+  induction f with
+  | zero => intro j ch _; simp [ambUp]; funext i; simp; omega
+  | succ f ih =>
+    intro j ch h
+    have hj : ch j = none := h j (Nat.le_refl _) (by omega)
+    have ih' := ih (j + 1) (upd ch j (some false)) (by
+      intro i h1 h2
+      have : ¬ i = j := by omega
+      simp only [upd, this, if_false]; exact h i (by omega) (by omega))
+    simp only [ambUp, hj, ih', List.range'_succ, List.map_cons]
+    refine Prod.ext ?_ rfl
+    funext i
+    simp only [upd]
+    by_cases h1 : i = j
+    · subst h1; simp
+    · simp only [h1, if_false]
+      by_cases h2 : j + 1 ≤ i ∧ i < j + 1 + f
+      · have : j ≤ i ∧ i < j + (f + 1) := by omega
+        simp [h2, this]
+      · have : ¬ (j ≤ i ∧ i < j + (f + 1)) := by omega
+        simp [h2, this]
+
+/-- climbing through levels that already chose "R": forwarded untouched -/
+theorem ambUp_false {β} (f : Nat) : ∀ (j : Nat) (ch : Nat → Option Bool), (∀ i, j ≤ i → i < j + f → ch i = some false) →
+    ambUp (β := β) f j ch = (ch, [], true) := by
+  induction f with
+  | zero => intro j ch _; rfl
+  | succ f ih =>
+    intro j ch h
+    have hj : ch j = some false := h j (Nat.le_refl _) (by omega)
+    simp only [ambUp, hj]
+    exact ih (j + 1) ch (fun i h1 h2 => h i (by omega) (by omega))
+
+/-- the simulation relation: no level has chosen / the winner's level chose its own source and every level above chose "R" -/
+def AmbSim (n : Nat) (s1 : AmbNSt) (s2 : AmbSt) : Prop :=
+  match s2.choice with
+  | none => ∀ j, s1.ch j = none
+  | some w => s1.ch w = some true ∧ ∀ j, w < j → j < n → s1.ch j = some false
+
+theorem amb_handler_sim {α} (n : Nat) (s1 : AmbNSt) (s2 : AmbSt) (k : Nat) (x : Notif α) (hk : k < n)
+    (hsim : AmbSim n s1 s2) (hw : ∀ w, s2.choice = some w → k = w) :
+    (ambNestedHandler n s1 k x).2 = (ambHandler n s2 k x).2 ∧
+    AmbSim n (ambNestedHandler n s1 k x).1 (ambHandler n s2 k x).1 := by
+  cases hc : s2.choice with
+  | none =>
+    simp only [AmbSim, hc] at hsim
+    have hup := ambUp_none (β := α) (n - (k + 1)) (k + 1) (upd s1.ch k (some true)) (by
+      intro i h1 h2
+      have : ¬ i = k := by omega
+      simp only [upd, this, if_false]; exact hsim i)
+    simp only [ambNestedHandler, hsim k, hup, ambHandler, hc, if_true, range'_eq_filter_gt, List.map_append]
+    refine ⟨by simp, ?_⟩
+    simp only [AmbSim]
+    refine ⟨?_, ?_⟩
+    · have : ¬ (k + 1 ≤ k ∧ k < k + 1 + (n - (k + 1))) := by omega
+      simp [this, upd]
+    · intro j h1 h2
+      have : k + 1 ≤ j ∧ j < k + 1 + (n - (k + 1)) := by omega
+      simp [this]
+  | some w =>
+    have hkw := hw w hc
+    subst hkw
+    simp only [AmbSim, hc] at hsim
+    have hup := ambUp_false (β := α) (n - (k + 1)) (k + 1) s1.ch (fun i h1 h2 => hsim.2 i (by omega) (by omega))
+    simp only [ambNestedHandler, hsim.1, hup, ambHandler, hc, if_true]
+    refine ⟨by simp, ?_⟩
+    simp only [AmbSim, hc]; exact hsim
+
+/-- two machines whose handlers agree (on the actions) run the plumbing identically -/
+theorem step_congr {σ1 σ2 ι β} (m1 : Machine σ1 ι β) (m2 : Machine σ2 ι β) (st1 : St σ1) (st2 : St σ2) (k : Nat) (n : Notif ι)
+    (hp : st1.p = st2.p) (ha : (m1.handler st1.s k n).2 = (m2.handler st2.s k n).2) :
+    (step m1 st1 (.src k n)).2 = (step m2 st2 (.src k n)).2 ∧ (step m1 st1 (.src k n)).1.p = (step m2 st2 (.src k n)).1.p := by
+  simp only [step, hp, ha]
+  split
+  · split <;> exact ⟨rfl, rfl⟩
+  · exact ⟨rfl, hp⟩
+
+theorem amb_nested_run {α} (n : Nat) (es : List (Ev α)) : ∀ (st1 : St AmbNSt) (st2 : St AmbSt),
+    st1.p = st2.p → AmbSim n st1.s st2.s → AInv n st2 →
+    run (ambNestedM (α := α) n) st1 es = run (ambM (α := α) n) st2 es := by
+  induction es with
+  | nil => intro _ _ _ _ _; rfl
+  | cons e es ih =>
+    intro st1 st2 hp hsim hinv
+    rw [run_cons, run_cons]
+    have hinv' := amb_step_inv n st2 e hinv
+    cases e with
+    | tick =>
+      have e1 : step (ambNestedM (α := α) n) st1 .tick = (st1, []) := by simp [step, ambNestedM, Plumb.acts]
+      have e2 : step (ambM (α := α) n) st2 .tick = (st2, []) := by simp [step, ambM, Plumb.acts]
+      rw [e1, e2]; simpa using ih st1 st2 hp hsim hinv
+    | dispose =>
+      have e1 : (step (ambNestedM (α := α) n) st1 .dispose).2 = (step (ambM (α := α) n) st2 .dispose).2 := by
+        simp [step, Plumb.dispose, hp]
+      rw [e1, ih _ _ (by simp [step, Plumb.dispose]) (by simpa [step] using hsim) hinv']
+    | src k x =>
+      by_cases hk : k ∈ st2.p.live
+      · have hkn := hinv.lt k hk
+        have hh := amb_handler_sim (α := α) n st1.s st2.s k x hkn hsim (fun w hw => hinv.ch w hw k hk)
+        have hc := step_congr (ambNestedM (α := α) n) (ambM (α := α) n) st1 st2 k x hp hh.1
+        rw [hc.1]
+        congr 1
+        apply ih _ _ hc.2 _ hinv'
+        rw [step_src_state _ _ _ _ (hp ▸ hk), step_src_state _ _ _ _ hk]
+        exact hh.2
+      · have hk1 : k ∉ st1.p.live := hp ▸ hk
+        rw [step_src_not_live _ _ _ _ hk1, step_src_not_live _ _ _ _ hk]
+        simpa using ih st1 st2 hp hsim hinv
+
+end Comb
